@@ -1,8 +1,12 @@
-import St4sd.Lemmas.C02e
+import St4sd.Lemmas.C02f
 /-!
 # C02 — Components reach the final state the documented rules prescribe, whatever the event order
 
 Model: `St4sd/Model/Ctrl.lean`.  Invariants: `St4sd/Lemmas/C02*.lean`.
+
+Histories are arbitrary sequences of operations, **including the stage transition `Op.next`**
+(the stage loop of `elaunch.Run`: `run()` of the current stage is over, `initialise(next stage)`):
+parts A–C therefore speak about multi-stage runs, part E states what is specific to them.
 -/
 namespace St4sd.C02
 open St4sd.Ctrl St4sd.C02L
@@ -115,11 +119,12 @@ theorem confluent_without_failure_partial (wf : Wf) (h : wf.WF) (hr : RepeatSafe
     | none => simp [hct] at this
     | some f => rw [hG.agree c f hct]
 
-/-- C4. If `spec` has a failure (single-stage workflow) then every quiescent state reached without
-a kill contains a FAILED component and `run()` raises `UnexpectedJobFailureError`. -/
+/-- C4. If `spec` has a failure (single-stage workflow: `lastStage = 0`, every component in stage 0)
+then every quiescent state reached without a kill contains a FAILED component and `run()` raises
+`UnexpectedJobFailureError`.  The multi-stage statement is `failure_is_reported_multistage_partial`. -/
 theorem failure_is_reported_partial (wf : Wf) (h : wf.WF) (hr : RepeatSafe wf)
     (hf : ∃ c, c < wf.n ∧ spec wf c = .failed) (hst : ∀ c, c < wf.n → (wf.cdef c).stage = 0)
-    (ops : List Op) (hk : NoKill ops) (hq : quiescent wf (run wf ops) = true) :
+    (hl : wf.lastStage = 0) (ops : List Op) (hk : NoKill ops) (hq : quiescent wf (run wf ops) = true) :
     (∃ c, c < wf.n ∧ ((run wf ops).comp c).ctrl = some .failed) ∧
       verdict wf (run wf ops) = .jobFailure := by
   have hex : ∃ c, c < wf.n ∧ ((run wf ops).comp c).ctrl = some .failed := by
@@ -135,12 +140,264 @@ theorem failure_is_reported_partial (wf : Wf) (h : wf.WF) (hr : RepeatSafe wf)
         exact absurd hct (hN c)
   refine ⟨hex, ?_⟩
   obtain ⟨c, hc, hct⟩ := hex
-  have hcur := (run_inv wf ops).cur0
+  have hcur : (run wf ops).cur = 0 := by
+    have := (run_inv wf ops).curLe
+    omega
   have : ((comps wf).filter fun c => (wf.cdef c).stage == (run wf ops).cur).any
       (fun c => ((run wf ops).comp c).ctrl == some .failed) = true := by
     rw [List.any_eq_true]
     refine ⟨c, List.mem_filter.2 ⟨by simp [comps, hc], by simp [hcur, hst c hc]⟩, by simp [hct]⟩
   simp only [verdict, this, if_true]
+
+/-! ## E. multi-stage runs
+
+`Op.next` is the stage loop of `elaunch.Run`; `runR` pairs the state with what `run()` reported
+for every stage left behind. -/
+
+/-- E1. `Controller.initialise(next stage)` touches no component, `comp_done` or the queue. -/
+theorem stage_transition_keeps_components (wf : Wf) (s : St) :
+    (step wf s .next).comp = s.comp ∧ (step wf s .next).done = s.done ∧
+      (step wf s .next).pending = s.pending := advance_comp wf s
+
+/-- E2. Exactly one final state: once a component is in a final state it stays in that state in
+every continuation of the history, stage transitions (and kills) included. -/
+theorem final_state_survives_stage_transitions (wf : Wf) (ops ops' : List Op) (c : Nat) (f : Fin3) :
+    ((run wf ops).comp c).ctrl = some f → ((run wf (ops ++ ops')).comp c).ctrl = some f := by
+  intro h
+  have := (run_from_monoC (wf := wf) ops' (run wf ops) (run_inv wf ops)).ctrl c f h
+  simpa [run, List.foldl_append] using this
+
+/-- E3. The stage loop never runs past the last stage. -/
+theorem cur_le_lastStage (wf : Wf) (ops : List Op) : (run wf ops).cur ≤ wf.lastStage :=
+  (run_inv wf ops).curLe
+
+/-- E4. A stage is left behind only when complete: every component of an earlier stage is in a
+final state (and stays there by E2). -/
+theorem earlier_stages_complete (wf : Wf) (ops : List Op) (c : Nat) (hc : c < wf.n)
+    (h : (wf.cdef c).stage < (run wf ops).cur) : ((run wf ops).comp c).ctrl.isSome = true := by
+  have := (runR_sinv wf ops).before c hc
+  rw [runR_fst] at this
+  exact this h
+
+/-- E5. A FAILED component of a stage that the loop has left behind: `run()` reported that stage
+as failed (`UnexpectedJobFailureError`) — in every history, kills included. -/
+theorem failed_component_stage_was_reported (wf : Wf) (ops : List Op) (c : Nat) (hc : c < wf.n)
+    (h : (wf.cdef c).stage < (run wf ops).cur) (hf : ((run wf ops).comp c).ctrl = some .failed) :
+    ((wf.cdef c).stage, Verdict.jobFailure) ∈ (runR wf ops).2 := by
+  have := (runR_sinv wf ops).rep c hc
+  rw [runR_fst] at this
+  exact this h hf
+
+/-- E6. Conversely a stage is reported as failed only if one of its components is FAILED, and a
+stage that was not reported as `ok` is left behind only under `continue-on-error`. -/
+theorem reports_sound (wf : Wf) (ops : List Op) :
+    ∀ e ∈ (runR wf ops).2, e.1 < (run wf ops).cur ∧ (e.2 = .ok ∨ wf.contOnErr e.1 = true) ∧
+      (e.2 = .jobFailure →
+        ∃ c, c < wf.n ∧ (wf.cdef c).stage = e.1 ∧ ((run wf ops).comp c).ctrl = some .failed) := by
+  intro e he
+  have hS := runR_sinv wf ops
+  have h1 := hS.lt e he
+  have h3 := hS.sound e he
+  rw [runR_fst] at h1 h3
+  exact ⟨h1, hS.cont e he, h3⟩
+
+/-- E7. Multi-stage version of C4.  If `spec` has a failure then every no-kill history that is over
+(quiescent, and the stage loop cannot go on) contains a FAILED component in a stage that was run,
+and for every such component the stage containing it was reported as failed: by the `run()` that
+ended the loop, or (under `continue-on-error`) by an earlier one. -/
+theorem failure_is_reported_multistage_partial (wf : Wf) (h : wf.WF) (hr : RepeatSafe wf)
+    (hls : ∀ c, c < wf.n → (wf.cdef c).stage ≤ wf.lastStage)
+    (hf : ∃ c, c < wf.n ∧ spec wf c = .failed) (ops : List Op) (hk : NoKill ops)
+    (hq : quiescent wf (run wf ops) = true) (hover : canAdvance wf (run wf ops) = false) :
+    (∃ c, c < wf.n ∧ ((run wf ops).comp c).ctrl = some .failed ∧
+        (wf.cdef c).stage ≤ (run wf ops).cur) ∧
+      ∀ c, c < wf.n → ((run wf ops).comp c).ctrl = some .failed →
+        (wf.cdef c).stage ≤ (run wf ops).cur →
+        ((wf.cdef c).stage = (run wf ops).cur ∧ verdict wf (run wf ops) = .jobFailure) ∨
+        ((wf.cdef c).stage, Verdict.jobFailure) ∈ (runR wf ops).2 := by
+  have hex : ∃ c, c < wf.n ∧ ((run wf ops).comp c).ctrl = some .failed := by
+    rcases run_inv2 h hr ops hk with ⟨d, hd, _, hd'⟩ | ⟨hG, hN⟩
+    · exact ⟨d, hd, hd'⟩
+    · obtain ⟨c, hc, hsp⟩ := hf
+      have := (quiescent_all_final wf h ops hq c hc).2
+      cases hct : ((run wf ops).comp c).ctrl with
+      | none => simp [hct] at this
+      | some f =>
+        have e := hG.agree c f hct
+        rw [hsp] at e; subst e
+        exact absurd hct (hN c)
+  refine ⟨?_, fun c hc hct hle => ?_⟩
+  · obtain ⟨c, hc, hct⟩ := hex
+    have hcl := (run_inv wf ops).curLe
+    by_cases hlt : (run wf ops).cur < wf.lastStage
+    · have hsd := quiescent_stage_done wf h ops hq
+      simp only [canAdvance, hsd, hlt, decide_true, Bool.true_and, Bool.or_eq_false_iff,
+        beq_eq_false_iff_ne, ne_eq] at hover
+      cases hv : verdict wf (run wf ops) with
+      | ok => exact absurd hv hover.1
+      | noFinishedLeaf => have := cur_of_noFinishedLeaf hv; omega
+      | jobFailure =>
+        obtain ⟨d, hd, hds, hdf⟩ := failed_of_verdict hv
+        exact ⟨d, hd, hdf, Nat.le_of_eq hds⟩
+    · exact ⟨c, hc, hct, by have := hls c hc; omega⟩
+  · by_cases e : (wf.cdef c).stage = (run wf ops).cur
+    · exact Or.inl ⟨e, verdict_jobFailure hc e hct⟩
+    · exact Or.inr (failed_component_stage_was_reported wf ops c hc (by omega) hct)
+
+/-- E8. A non-aggregating consumer of a shut-down producer — in the same or in any later stage —
+ends shut-down in every quiescent no-kill history of a workflow whose rules give no failure. -/
+theorem consumer_of_shutdown_producer_partial (wf : Wf) (h : wf.WF) (hr : RepeatSafe wf)
+    (hs : ∀ c, c < wf.n → spec wf c ≠ .failed) (ops : List Op) (hk : NoKill ops)
+    (hq : quiescent wf (run wf ops) = true) (c p : Nat) (hc : c < wf.n)
+    (hp : p ∈ (wf.cdef c).preds) (hna : (wf.cdef c).isAgg = false)
+    (hps : ((run wf ops).comp p).ctrl = some .shutdown) :
+    ((run wf ops).comp c).ctrl = some .shutdown := by
+  have hpn : p < wf.n := Nat.lt_trans (h.topo c p hp) hc
+  have hsp : spec wf p = .shutdown := by
+    have := confluent_without_failure_partial wf h hr hs ops hk hq p hpn
+    rw [hps] at this
+    exact (Option.some.inj this).symm
+  have hany : (wf.cdef c).preds.any (fun p => spec wf p == .shutdown) = true :=
+    List.any_eq_true.2 ⟨p, hp, by simp [hsp]⟩
+  have hrule : ruleShutdown wf (spec wf) c = true := by
+    simp only [ruleShutdown, hna, Bool.false_eq_true, if_false, hany]
+    split <;> rfl
+  have hsc : spec wf c = .shutdown := by rw [spec_unfold wf h c, hrule]; rfl
+  rw [confluent_without_failure_partial wf h hr hs ops hk hq c hc, hsc]
+
+/-- E9. The aggregating rule needs a replicated input to fire on "all replicated inputs": an
+aggregating component without replicated producers whose producers all end finished is not shut
+down by the rules (it gets the outcome of its own executions). -/
+theorem aggregating_without_replicated_inputs (wf : Wf) (h : wf.WF) (c : Nat)
+    (hnr : ∀ p ∈ (wf.cdef c).preds, (wf.cdef p).isRepl = false)
+    (hfin : ∀ p ∈ (wf.cdef c).preds, spec wf p = .finished) : spec wf c = own wf c := by
+  have hrule : ruleShutdown wf (spec wf) c = false := by
+    have h1 : (wf.cdef c).preds.any (fun p => spec wf p == .failed) = false := by
+      rw [List.any_eq_false]; intro p hp; simp [hfin p hp]
+    have h2 : (wf.cdef c).preds.any (fun p => spec wf p == .shutdown) = false := by
+      rw [List.any_eq_false]; intro p hp; simp [hfin p hp]
+    have h3 : ((wf.cdef c).preds.filter fun p => (wf.cdef p).isRepl) = [] := by
+      rw [List.filter_eq_nil_iff]; intro p hp; simp [hnr p hp]
+    have h4 : ((wf.cdef c).preds.filter fun p => !(wf.cdef p).isRepl).any
+        (fun p => spec wf p == .shutdown) = false := by
+      rw [List.any_eq_false]; intro p hp; simp [hfin p (List.mem_filter.1 hp).1]
+    simp only [ruleShutdown, h1, h2, h3, h4, Bool.false_eq_true, if_false, List.isEmpty_nil,
+      Bool.not_true, Bool.false_and]
+    split <;> rfl
+  rw [spec_unfold wf h c, hrule]; rfl
+
+/-! ### non-vacuity of part E: two stages
+
+Stage 0: component 0 ends `KnownIssue` (on its `shutdownOn` list), component 1 succeeds.
+Stage 1: component 2 consumes 0, component 3 is independent (and is launched while stage 0 is
+still current).  In `opsMS` the notification of 0 is the LAST one of stage 0, so its consumer 2
+is inspected by the scheduler only after `initialise(stage 1)`. -/
+
+def cdefMS : Nat → CompDef
+  | 0 => { shutdownOn := [.knownIssue], script := [.knownIssue] }
+  | 1 => {}
+  | 2 => { stage := 1, preds := [0] }
+  | 3 => { stage := 1 }
+  | _ => {}
+
+def wfMS : Wf := { n := 4, lastStage := 1, order := [0, 1, 2, 3], cdef := cdefMS }
+
+def opsMS : List Op :=
+  [.sched, .sched, .exit 1, .pm 1, .fin 1, .exit 0, .pm 0, .fin 0, .next, .sched, .sched, .fin 2,
+   .exit 3, .pm 3, .fin 3]
+
+theorem wfMS_wf : wfMS.WF := by
+  refine ⟨?_, ?_, ?_⟩
+  · intro c
+    rcases c with _ | _ | _ | _ | c <;> simp [wfMS, cdefMS]
+  · intro c hc; simp [wfMS] at hc ⊢; omega
+  · intro c hc; simp [wfMS] at hc ⊢; omega
+
+theorem wfMS_repeatSafe : RepeatSafe wfMS := by
+  intro c _ hrep
+  rcases c with _ | _ | _ | _ | c <;> simp [wfMS, cdefMS] at hrep
+
+example : (List.range 4).map (spec wfMS) = [.shutdown, .finished, .shutdown, .finished] := by
+  decide +kernel
+/-- the transition is not enabled while the stage has active components … -/
+example : (run wfMS [.sched, .next]).cur = 0 := by decide +kernel
+/-- … and is taken once the stage is complete; stage 0 is reported `ok` -/
+example : (run wfMS opsMS).cur = 1 ∧ (runR wfMS opsMS).2 = [(0, .ok)] := by decide +kernel
+example : quiescent wfMS (run wfMS opsMS) = true ∧ canAdvance wfMS (run wfMS opsMS) = false ∧
+    verdict wfMS (run wfMS opsMS) = .ok := by decide +kernel
+/-- the shut-down producer keeps its state across the transition and its later-stage consumer is
+shut down without running; the launches are 0, 1 and the future-stage component 3 -/
+example : (List.range 4).map (fun c => ((run wfMS opsMS).comp c).ctrl) =
+    [some .shutdown, some .finished, some .shutdown, some .finished] ∧
+    ((run wfMS opsMS).comp 2).ran = false ∧ (run wfMS opsMS).log.map (·.1) = [0, 1, 3] := by
+  decide +kernel
+/-- E8 instantiates -/
+example : ((run wfMS opsMS).comp 2).ctrl = some .shutdown :=
+  consumer_of_shutdown_producer_partial wfMS wfMS_wf wfMS_repeatSafe
+    (by intro c hc
+        have : c < 4 := hc
+        rcases c with _ | _ | _ | _ | c
+        all_goals first | omega | decide +kernel)
+    opsMS (by unfold NoKill; decide) (by decide +kernel) 2 0 (by decide) (by decide) rfl
+    (by decide +kernel)
+
+/-- failing variant with `continue-on-error` on stage 0: component 1 ends `UnknownIssue` -/
+def wfMSbad : Wf :=
+  { wfMS with
+    contOnErr := fun k => k == 0
+    cdef := fun c => if c = 1 then { script := [.unknownIssue] } else cdefMS c }
+
+def opsMSbad : List Op :=
+  [.sched, .sched, .exit 1, .pm 1, .fin 1, .exit 0, .fin 0, .next, .sched, .sched, .fin 2, .exit 3,
+   .pm 3, .fin 3]
+
+theorem wfMSbad_wf : wfMSbad.WF := by
+  refine ⟨?_, ?_, ?_⟩
+  · intro c
+    rcases c with _ | _ | _ | _ | c <;> simp [wfMSbad, wfMS, cdefMS]
+  · intro c hc; simp [wfMSbad, wfMS] at hc ⊢; omega
+  · intro c hc; simp [wfMSbad, wfMS] at hc ⊢; omega
+
+theorem wfMSbad_repeatSafe : RepeatSafe wfMSbad := by
+  intro c _ hrep
+  rcases c with _ | _ | _ | _ | c <;> simp [wfMSbad, wfMS, cdefMS] at hrep
+
+example : (List.range 4).map (spec wfMSbad) = [.shutdown, .failed, .shutdown, .finished] := by
+  decide +kernel
+/-- stage 0 is reported as failed, the loop goes on, stage 1 ends normally -/
+example : (run wfMSbad opsMSbad).cur = 1 ∧ (runR wfMSbad opsMSbad).2 = [(0, .jobFailure)] ∧
+    verdict wfMSbad (run wfMSbad opsMSbad) = .ok ∧
+    (List.range 4).map (fun c => ((run wfMSbad opsMSbad).comp c).ctrl) =
+      [some .shutdown, some .failed, some .shutdown, some .finished] := by decide +kernel
+/-- without `continue-on-error` the loop stops at stage 0 -/
+example : (run { wfMSbad with contOnErr := fun _ => false } opsMSbad).cur = 0 ∧
+    verdict { wfMSbad with contOnErr := fun _ => false }
+      (run { wfMSbad with contOnErr := fun _ => false } opsMSbad) = .jobFailure := by decide +kernel
+/-- E7 instantiates -/
+example : ((wfMSbad.cdef 1).stage, Verdict.jobFailure) ∈ (runR wfMSbad opsMSbad).2 := by
+  have h := (failure_is_reported_multistage_partial wfMSbad wfMSbad_wf wfMSbad_repeatSafe
+    (by intro c hc
+        have : c < 4 := hc
+        rcases c with _ | _ | _ | _ | c
+        all_goals first | omega | decide)
+    ⟨1, by decide, by decide +kernel⟩ opsMSbad (by unfold NoKill; decide) (by decide +kernel)
+    (by decide +kernel)).2 1 (by decide) (by decide +kernel) (by decide +kernel)
+  rcases h with ⟨h1, _⟩ | h
+  · exact absurd h1 (by decide +kernel)
+  · exact h
+
+/-- E9 on an aggregator of an aggregator -/
+def wfAgg2 : Wf :=
+  { n := 4, order := [0, 1, 2, 3],
+    cdef := fun c => match c with
+      | 0 => { isRepl := true }
+      | 1 => { isRepl := true }
+      | 2 => { preds := [0, 1], isAgg := true }
+      | 3 => { preds := [2], isAgg := true }
+      | _ => {} }
+
+example : spec wfAgg2 3 = .finished := by decide +kernel
+
 
 /-! ## D. non-vacuity: a concrete workflow and history -/
 
@@ -229,7 +486,7 @@ example : (∃ c, c < 5 ∧ ((run wfBad opsBad).comp c).ctrl = some .failed) ∧
         have : c < 5 := hc
         rcases c with _ | _ | _ | _ | _ | c
         all_goals first | omega | rfl)
-    opsBad (by unfold NoKill; decide) (by decide +kernel)
+    rfl opsBad (by unfold NoKill; decide) (by decide +kernel)
 
 
 /-! ### `RepeatSafe` cannot be dropped: a repeating observer of a producer that shuts down
